@@ -331,6 +331,9 @@ class LoopMixin:
 
     # ------------------------------------------------------------------ for loops
     def for_loop(self, st, it, env):
+        for lc in self.config.get("loop_contracts", ()):
+            if lc(self, st, it, env):
+                return
         domkind, dom = self.iter_domain(it)
         if domkind == "sorted":
             domkind, dom = "kset", dom.ks
